@@ -158,9 +158,9 @@ PROPS["C19"] = {
 
 PROPS["C14"] = {
     "units": ["codec", "codec_trace"],
-    "kani": ["u64_roundtrip", "u64_order", "u32_roundtrip", "u64ed_matches_u64", "option_u64_roundtrip", "tuple_u64_u32_roundtrip"],
-    "kani_thorough": ["u128ed_roundtrip", "u128ed_order", "nidx_key_order"],
-    "level_text": "Verus (unbounded): real impl bodies of the u8 / Option<T> / (T,U) codecs satisfy `encode appends exactly enc(v)` and `decode returns dec(bytes, offset)`, with the round-trip law codec_ok (decode of an encoding anywhere inside a buffer gives the value back and consumes exactly its bytes: lossless and self-delimiting) proved generically; Vec<T> (u32 length prefix) encode/decode bodies verified as trait impls, BlockHistoryCacheData<V> encode/decode bodies verified with round-trip lemmas over version maps; the law with a domain (codec_law: every storable value decodes back to itself, consuming exactly its bytes, anywhere in a buffer) proved for Option / pair / Vec and, by rule N37, for the record codecs AccountInfoED, LogED, TxED, TxReceiptED and TraceED: their abstract encoding and decoder are READ OFF the real Encode / Decode impls statement by statement on every run, both real bodies are verified against them, and the law is a generated lemma prop_record_<S> that fails as soon as encoder and decoder disagree in field list, field order or field type (a consistent change of both keeps verifying). Kani: complete CBMC proofs (all 2^64 / 2^128 values, unwinding assertions on) on the REAL codec files included by path: u64/u32 big-endian round trip with exact consumption inside a larger buffer, u64 order and injectivity of the encoding, U64ED encoding identical to u64 (block tables mix them), U128ED round trip and order, (block,index) composite key order, Option tag byte, tuple concatenation.",
+    "kani": ["u64_roundtrip", "u64_order", "u32_roundtrip", "u64ed_matches_u64", "option_u64_roundtrip", "tuple_u64_u32_roundtrip", "u8ed_roundtrip", "b256ed_roundtrip", "addressed_roundtrip"],
+    "kani_thorough": ["u128ed_roundtrip", "u128ed_order", "nidx_key_order", "u256ed_roundtrip", "u512ed_roundtrip"],
+    "level_text": "Verus (unbounded): real impl bodies of the u8 / Option<T> / (T,U) codecs satisfy `encode appends exactly enc(v)` and `decode returns dec(bytes, offset)`, with the round-trip law codec_ok (decode of an encoding anywhere inside a buffer gives the value back and consumes exactly its bytes: lossless and self-delimiting) proved generically; Vec<T> (u32 length prefix) encode/decode bodies verified as trait impls, BlockHistoryCacheData<V> encode/decode bodies verified with round-trip lemmas over version maps; the law with a domain (codec_law: every storable value decodes back to itself, consuming exactly its bytes, anywhere in a buffer) proved for Option / pair / Vec and, by rule N37, for the record codecs AccountInfoED, LogED, TxED, TxReceiptED and TraceED: their abstract encoding and decoder are READ OFF the real Encode / Decode impls statement by statement on every run, both real bodies are verified against them, and the law is a generated lemma prop_record_<S> that fails as soon as encoder and decoder disagree in field list, field order or field type (a consistent change of both keeps verifying). Kani: complete CBMC proofs (all 2^64 / 2^128 values, unwinding assertions on) on the REAL codec files included by path: u64/u32 big-endian round trip with exact consumption inside a larger buffer, u64 order and injectivity of the encoding, U64ED encoding identical to u64 (block tables mix them), U128ED round trip and order, (block,index) composite key order, Option tag byte, tuple concatenation, and the fixed-width leaf codecs of the records: U8ED, B256ED, AddressED (quick) and U256ED, U512ED (thorough) round trip inside a larger buffer with exact consumption, for every bit pattern.",
     "level_note": "Trusted: CBMC 6.11 / Kani 0.68 models of alloc and core, alloy-primitives 1.4.1 Uint::{as_limbs,from_limbs,from} as compiled. Harnesses are loop-free or bounded by the constant encoding width with unwinding assertions, hence complete, not bounded. In the Verus unit u32/u64 are assumed impls over be4/be8 (their laws are the Kani results). In the record lemmas the leaf codecs (U64ED, U8ED, U256ED, B256ED, B2048ED, AddressED, BytesED, String) are assumed to satisfy the law (the fixed-width ones are the Kani results); Vec values are identified with their element sequences (axiom_vec_ext / axiom_vec_of: vstd gives Vec no extensional equality); TraceED.calls: Vec<TraceED> is an assumed leaf in unit codec_trace (recursive type: its law is the induction hypothesis); fields a decoder re-creates instead of reading (TxED.chain_id / tx_type, TxReceiptED.effective_gas_price / transaction_type) are part of the domain of the law (the value must carry what the decoder re-creates; the constructors that guarantee it are not under proof). NOT covered: [T;N], BlockResponseED (Either + decode through ::new), RawBlock (alloy RLP), BytecodeED, BytesED / String bodies, U256/U512/Address/B256 bodies, the serde/JSON half of the statement.",
     "assumptions": ["leaf codecs of the records (U64ED, U8ED, U256ED, B256ED, B2048ED, AddressED, BytesED, String) assumed to satisfy codec_law; fixed-width ones proved by Kani", "Vec values identified with their element sequences (axiom_vec_ext, axiom_vec_of)", "law of Vec<TraceED> assumed in unit codec_trace (induction hypothesis of a recursive type)", "stored TxED / TxReceiptED values carry the field values the decoder re-creates (set by ::new, not under proof)", "BlockResponseED, RawBlock, BytecodeED, [T;N] and wide integer / byte-array bodies not under proof", "serde/JSON round trip outside both tools", "history round trip is at map level (no extensional equality for BTreeMap in vstd)"],
 }
